@@ -279,7 +279,7 @@ pub fn gen_settings(rng: &mut Rng, mode: u8) -> Settings {
         cs: gen_override(rng, 0.0, 11.0),
         hp: gen_override(rng, 0.0, 11.0),
         od: gen_override(rng, 0.0, 11.0),
-        hardrock_offsets: if rng.chance(1, 10) {
+        hardrock_offsets: if rng.chance(if mode == 2 { 3 } else { 1 }, 10) {
             Some(rng.chance(1, 2))
         } else {
             None
